@@ -55,6 +55,30 @@ def translators():
     return msgs
 
 
+GEN_OF = {"consts.py": "Prom.Gen.Consts", "macros.py": "Prom.Gen.MacroArms", "pbtable.py": "Prom.Gen.PbTables", "orderings.py": "Prom.Gen.Orderings", "charsets.py": "Prom.Gen.Charsets"}
+
+
+def import_closure(module, seen=None):
+    """modules of this project that `module` imports, transitively (read from the sources)"""
+    seen = set() if seen is None else seen
+    if module in seen or not module.startswith("Prom"):
+        return seen
+    seen.add(module)
+    path = os.path.join(LEAN, *module.split(".")) + ".lean"
+    try:
+        for m in re.findall(r"^import\s+(\S+)", open(path).read(), re.M):
+            import_closure(m, seen)
+    except OSError:
+        pass
+    return seen
+
+
+def translator_relevant(script, module):
+    """a translator that could not read the source only concerns the properties whose theorems import what it generates"""
+    g = GEN_OF.get(script)
+    return g is None or g in import_closure(module)
+
+
 def strip_comments(src):
     # remove /- ... -/ (nested) and -- line comments
     out = []
@@ -365,7 +389,7 @@ def main():
     notes = []
     # ---------------- layer 1: proof
     with Lock():
-        tmsgs = translators()
+        tmsgs = [m for m in translators() if translator_relevant(m.split(":")[0], cfg["module"])]
         if tier == "thorough":
             # rebuild the property's module from its sources
             ol = os.path.join(LEAN, ".lake", "build", "lib", "lean", *cfg["module"].split("."))
